@@ -18,13 +18,16 @@ def gen_case(ctx, rng, i, tag='random'):
     from harness.check import draw_env
     pol, knobs = draw_env(rng, tcp=True)
     children = [rng.choice(STATES) for _ in range(rng.randrange(0, 5))]
-    stop = rng.choice(['terminate', 'sigterm'])
+    stop = rng.choice(['terminate', 'terminate-noforce', 'sigterm'])
     fault = None
     during_start = rng.random() < 0.25
     if during_start:
-        # stop the server while it is starting one more worker
-        fault = {'kind': 'gate', 'role': 'child-main:ProcessWorker._run', 'any_thread': True, 'qualname': rng.choice(
-            ['RemoteWorker.__setstate__', 'RemoteServer.run', 'recv_msg', 'send_msg']), 'occ': rng.randrange(1, 40)}
+        # stop the server while it is starting one more worker.  For terminate() the server's main thread is held at the
+        # chosen delivery point until the WorkerTerminatedError is pending on it, so that it lands exactly there.
+        fault = {'kind': 'terminate' if stop.startswith('terminate') else 'gate', 'role': 'child-main:ProcessWorker._run', 'any_thread': True,
+                 'qualname': rng.choice(['RemoteWorker.__setstate__', 'RemoteWorker.__setstate__', 'RemoteServer.run', 'recv_msg', 'send_msg',
+                                         'remote_loads', 'PipeEndpoint.recv', 'Pipe.__init__']),
+                 'occ': rng.randrange(1, 12)}
     return {'kind': 'server', 'children': children, 'stop': stop, 'fault': fault, 'during_start': during_start,
             'policy': pol, 'knobs': knobs, 'sched_seed': ctx.case_seed(tag, i)}
 
@@ -88,8 +91,9 @@ class Run:
             s.gate_wait('fault', timeout=5.0)
         descendants_before = [p for p in lib.descendants(s, sp)]
         t0 = s.now
-        if c['stop'] == 'terminate':
-            r = lib.call_with_deadline(srv.terminate, 300.0)
+        if c['stop'].startswith('terminate'):
+            kwt = {'timeout': 5, 'force': False} if c['stop'] == 'terminate-noforce' else {}
+            r = lib.call_with_deadline(srv.terminate, 300.0, **kwt)
             self.info['stop'] = [r[0], lib.safe_repr(r[1])]
             if r[0] == 'hung':
                 self.viol('server-stops', 'server.terminate-hangs', s.blocked_report()[:6])
@@ -106,10 +110,15 @@ class Run:
             s.sleep(0.25)
         alive = [p for p in lib.descendants(s, sp) if p.alive]
         if sp.alive:
-            self.viol('server-stops', f'server-still-alive:{c["stop"]}', None)
+            # which child keeps it (the interpreter joins its non-daemon child processes at exit)?
+            bl = [b for b in s.blocked_report() if b['thread'] == sp.main.name]
+            exiting = bool(bl) and any('join-proc' in str(b['on']) or 'shutdown-join' in str(b['on']) for b in bl)
+            self.viol('server-stops', f'server-still-alive:{c["stop"]}:' + ('exiting-but-joining-an-orphaned-child' if exiting else 'still-serving'),
+                      bl[:1])
         if alive:
             kinds = sorted({self.state_of(p) for p in alive})
-            self.viol('children-reaped', f'children-left-after-{c["stop"]}:' + ','.join(kinds), [p.name for p in alive])
+            cls = 'helper-or-other' if kinds == ['helper-or-other'] else 'established-children'
+            self.viol('children-reaped', f'children-left-after-{c["stop"]}:{cls}', {'states': kinds, 'procs': [p.name for p in alive]})
         self.info['reap_time'] = round(s.now - t0, 3)
         if late is not None:
             late.join(600.0)
